@@ -45,7 +45,7 @@ PROPS = {
         explanation='Bounded stand-in only.',
     ),
     'C10': dict(
-        v=['C10_fold', 'C10_walfile'], k=[], b=['c10_raftwal'],
+        v=['C10_fold', 'C10_walfile', 'C01_raft'], k=[], b=['c10_raftwal'],
         pairs={'C10_fold': ['bounded:c10_raftwal'], 'C10_walfile': ['bounded:c10_raftwal']},
         level='other',
         technique='Verus: extracted RaftRecoveryState::from_entries proved equal to term/vote and log folds written from the property + stickiness lemmas',
